@@ -12,6 +12,42 @@ THEOREMS = ["C02.rewire_only_target", "C02.performer_skeleton", "C02.modify_skel
             "C02.E2E.shape_instance", "C02.E2E.sig_instance", "C02.E2E.float_instance", "C02.E2E.shipped_io_integer"]
 
 
+def with_custom_op(case, rng):
+    """appends 1-2 CUSTOM operators (unary, on tensors some operator produced) whose operator codes come LAST in the table"""
+    import numpy as np
+    from ai_edge_litert import schema_py_generated as s
+    from tensorflow.lite.tools import flatbuffer_utils
+    m = pl.read(case.mb)
+    sg = m.subgraphs[0]
+    prods = [o for op in sg.operators for o in op.outputs if o != -1 and sg.tensors[o].type == s.TensorType.FLOAT32]
+    if not prods:
+        return case
+    for k in range(rng.randint(1, 2)):
+        oc = s.OperatorCodeT()
+        oc.builtinCode, oc.deprecatedBuiltinCode, oc.customCode, oc.version = s.BuiltinOperator.CUSTOM, s.BuiltinOperator.CUSTOM, ("VerifCustom%d" % k).encode(), 1
+        m.operatorCodes.append(oc)
+        src = rng.choice(prods)
+        b = s.BufferT()
+        m.buffers.append(b)
+        t = s.TensorT()
+        t.name, t.shape, t.type, t.buffer, t.quantization = ("custom_result%d" % k).encode(), list(sg.tensors[src].shape), s.TensorType.FLOAT32, len(m.buffers) - 1, None
+        sg.tensors.append(t)
+        op = s.OperatorT()
+        op.opcodeIndex, op.inputs, op.outputs = len(m.operatorCodes) - 1, [src], [len(sg.tensors) - 1]
+        op.customOptions = np.frombuffer(bytes([k + 1, 2, 3]), dtype=np.uint8)
+        sg.operators.append(op)
+        sg.outputs = list(sg.outputs) + [len(sg.tensors) - 1]
+        for sd in (m.signatureDefs or []):
+            if sd.subgraphIndex == 0:
+                tm = s.TensorMapT()
+                tm.name, tm.tensorIndex = ("custom_out%d" % k).encode(), len(sg.tensors) - 1
+                sd.outputs.append(tm)
+    case.mb = bytes(flatbuffer_utils.convert_object_to_bytearray(m))
+    case.info["tags"].add("custom_operator_code_last")
+    case.info["subgraphs"][0]["ops"] = list(case.info["subgraphs"][0]["ops"]) + ["CUSTOM"]
+    return case
+
+
 def run(ctx):
     ctx.rule = ("generated float models in converter normal form (typed DAG grower over the 21 supported op types + unsupported float ops; "
                 "multi-consumer tensors, repeated operands, consumed graph outputs, inputs that are outputs, dead outputs, name hazards, "
@@ -37,6 +73,17 @@ def run(ctx):
     # graph stage (instructions + performer on abstract parameter classes) AND the whole pipeline (bit-exact output, WF.modelOK /
     # skeleton evaluated on the model's own output, NF membership) are compared with the Lean model on every case
     def gen(rng, i):
+        if i % 12 == 7:
+            # a CUSTOM operator (its code sits at the END of the operator-code table, with a custom_code string) next to operators
+            # whose weights are quantized without calibration (the interpreter cannot run a custom op): inserted DEQUANTIZE operators add
+            # codes to that table; every original operator must keep resolving to its own code
+            from .. import gen_models as gm
+            mb, info = gm.gen_model(rng, n_ops=rng.randint(2, 6), n_subgraphs=1, kinds=gm.WEIGHT_HEAVY, alias_sig=0.0)
+            cfg = rng.choice([pl.UNIFORM["wo8"], pl.UNIFORM["wo4"], pl.FP16])
+            cmds = [{"k": "add", "regex": ".*", "operation": "FULLY_CONNECTED" if cfg is pl.FP16 else "*", "cfg": cfg,
+                     "alg": "float_casting" if cfg is pl.FP16 else "min_max_uniform_quantize"}]
+            case = fp.Case(mb, info, cmds=cmds, data=gm.random_inputs(mb, rng, n=1), desc=[("custom op", cfg["cp"], cfg["weight"]["bits"])])
+            return with_custom_op(case, rng)
         # constants exported as graph outputs (frozen variables returned next to the activations) in every fourth case
         return fp.gen_case(rng, i, const_output=0.5, dup_output=0.25) if i % 4 == 2 else fp.gen_case(rng, i)
     fp.explore(ctx, drv, 600 if ctx.tier == "quick" else 4000, per_case, gen=gen, graph_corr=True, pipe_corr=True)
